@@ -220,7 +220,15 @@ def entries():
         else:
             pairs = BASE_PAIRS
         for ta, tb in pairs:
-            put("B", op, (ta, tb), bmask(B_NORMAL))
+            forms = B_NORMAL
+            if op == "ldexp" and not is_float(ta):
+                # std::ldexp(alias_view<int>, int) is ambiguous: (scalar int, array) is rejected at compile time
+                forms = [f for f in B_NORMAL if f != (S, A)]
+            if op in ("fmod", "hypot", "arctan2", "fmax", "fmin") and (ta, tb) == ("i32", "i32"):
+                # std::fmod(alias_view<int>, int) etc. are ambiguous overload calls: an integer scalar operand next to
+                # an integer array operand is rejected at compile time for the <cmath> forwarding functors
+                forms = [f for f in B_NORMAL if f not in ((S, A), (A, S))]
+            put("B", op, (ta, tb), bmask(forms))
         if op in HAS_OUTER:
             ta, tb = pairs[0]
             put("B", op, (ta, tb), bmask([], outer=True, outer_dt=outer_dts(op, ta, tb)))
@@ -237,7 +245,7 @@ def entries():
         if op in INT_ONLY_UN:
             ts = ["i32"]
         elif op in FLOAT_ONLY_UN:
-            ts = ["f32", "f64"]
+            ts = ["f32", "f64", "i32"]   # i32: NumPy computes integer angles in double
         else:
             ts = ["i32", "f32", "f64"]
         if op in SMALL_INT_UN:
@@ -275,17 +283,26 @@ def entry_cost(e):
     return 0.8 + n * base
 
 
-NPARTS = 40
+NPARTS = 60
 
 
 def partition(ents=None, nparts=NPARTS):
-    """greedy balanced partition; deterministic"""
+    """deterministic partition that is stable under small edits of the table (a changed entry only
+    touches its own part): heavy entries are placed greedily, light ones by a hash of their key"""
+    import hashlib
     ents = ents if ents is not None else entries()
-    order = sorted(ents, key=lambda e: (-entry_cost(e), e["kind"], e["op"], e["types"]))
     loads = [0.0] * nparts
     parts = [[] for _ in range(nparts)]
-    for e in order:
-        k = min(range(nparts), key=lambda i: (loads[i], i))
+    heavy = sorted([e for e in ents if entry_cost(e) > 8], key=lambda e: (e["kind"], e["op"], e["types"]))
+    for i, e in enumerate(heavy):
+        k = i % nparts
+        parts[k].append(e)
+        loads[k] += entry_cost(e)
+    for e in ents:
+        if entry_cost(e) > 8:
+            continue
+        h = hashlib.sha1(("%s|%s|%s" % (e["kind"], e["op"], ",".join(e["types"]))).encode()).digest()
+        k = int.from_bytes(h[:4], "big") % nparts
         parts[k].append(e)
         loads[k] += entry_cost(e)
     return parts, loads
